@@ -22,7 +22,7 @@ def run(tier, seed):
         common.code_to_spec(chk, cfgs, lambda c: R.Real(c), tag=tag, chk_fields=())
     from .c14 import SplitReal
     common.code_to_spec(chk, fam.fam_split(thorough=th) + fam.fam_split_discount(), lambda c: SplitReal(c), tag='split', split='cfg', chk_fields=())
-    common.zoo_portfolio_traces(chk, seeds=range(seed, seed + (2 if not th else 8)), clause_filter=is_c04, clauses=('accounting',))
+    common.zoo_portfolio_traces(chk, seeds=range(seed, seed + (2 if not th else 8)), clause_filter=is_c04, clauses=('accounting',), routes=('mono', 'split', 'io', 'robust'))
     if th:
         common.harvested_test_suite(chk, ('accounting',), is_c04)
     chk.assumptions += ['the STEP on which a cash flow is booked is not part of the statement; totals per asset are compared']
